@@ -174,8 +174,8 @@ PROPS = {
         "theorems": ["Avro.C06.decode_conforms", "Avro.C06.decode_reencode", "Avro.C01.decode_encode"],
         "partial": [
             {"theorem": "Avro.C06.decode_conforms",
-             "excluded_by": "hypothesis PrimFacts (closed statements about the model's num-bigint / uuid-text functions, not yet "
-                            "all proved in Lean); wfS s / EnvOk env (what the parser and ResolvedSchema guarantee); 36 <= lim"},
+             "excluded_by": "wfS s / EnvOk env (what the parser and ResolvedSchema guarantee); 36 <= lim. (The five facts about the model's num-bigint / "
+                            "uuid-text functions that used to be a hypothesis are proved: AvroProofs/Lemmas/Prim.lean, primFacts)"},
             {"theorem": "(not yet stated) truncation_errors / decoders_agree",
              "excluded_by": "covered only by the implementation oracle of the correspondence run so far"},
         ],
@@ -522,8 +522,7 @@ PROPS = {
                 "arrays/maps, negative counts with byte sizes) through the real decoder and the model decoder; plus the byte-exact encode rows of C01",
         "trusted_base": DATUM_TB + ["the harness's reference codec (refcodec.rs) is the 'independent implementation' of the property's statement"],
         "partial": [{"theorem": "Avro.C02.encode_sound / decode_complete",
-                     "excluded_by": "PrimFacts hypothesis (closed facts about the modelled num-bigint / uuid-text primitives) for the uuid-string arm; non-canonical "
-                                    "(zero-padded) varints are not part of SpecEnc"}],
+                     "excluded_by": "non-canonical (zero-padded) varints are not part of SpecEnc"}],
         "assumptions": [],
     },
     "C04": {
@@ -542,7 +541,7 @@ PROPS = {
                                     "zstandard has no reference implementation in this sandbox (round trip only, C15)"],
         "partial": [{"theorem": "Avro.C04.reader_accepts",
                      "excluded_by": "blocks are non-empty in the theorem (BlockOk); an empty block is covered by the oracle; the embedded schema's JSON<->Schema "
-                                    "step is C10's subject (schema/env are parameters of the model reader); PrimFacts hypothesis inherited from C02"}],
+                                    "step is C10's subject (schema/env are parameters of the model reader)"}],
         "assumptions": [],
     },
     "C15": {
